@@ -2549,25 +2549,24 @@ let c04_valid mm d =
                     ((&&)
                       ((&&)
                         ((&&)
-                          ((&&)
-                            ((&&) (Z.leb h.h_numrecs i64_MAX)
-                              (Z.leb (zlen dims)
-                                (Z.sub nC_MAX_INT (Zpos (XI (XI (XI (XI (XI
-                                  XH)))))))))
-                            (Z.leb (zlen h.h_gatts)
+                          ((&&) (Z.leb h.h_numrecs i64_MAX)
+                            (Z.leb (zlen dims)
                               (Z.sub nC_MAX_INT (Zpos (XI (XI (XI (XI (XI
                                 XH)))))))))
-                          (Z.leb (zlen vars)
+                          (Z.leb (zlen h.h_gatts)
                             (Z.sub nC_MAX_INT (Zpos (XI (XI (XI (XI (XI
                               XH)))))))))
-                        (forallb (fun x ->
-                          (&&) ((&&) (name_ok x.d_name) (Z.leb Z0 x.d_size))
-                            (Z.leb x.d_size i64_MAX)) dims))
-                      (Z.leb
-                        (zlen (filter (fun x -> Z.eqb x.d_size Z0) dims))
-                        (Zpos XH))) (forallb att_ok h.h_gatts))
-                  (forallb (fun v ->
-                    (&&)
+                        (Z.leb (zlen vars)
+                          (Z.sub nC_MAX_INT (Zpos (XI (XI (XI (XI (XI
+                            XH)))))))))
+                      (forallb (fun x ->
+                        (&&) ((&&) (name_ok x.d_name) (Z.leb Z0 x.d_size))
+                          (Z.leb x.d_size i64_MAX)) dims))
+                    (Z.leb (zlen (filter (fun x -> Z.eqb x.d_size Z0) dims))
+                      (Zpos XH))) (forallb att_ok h.h_gatts))
+                (forallb (fun v ->
+                  (&&)
+                    ((&&)
                       ((&&)
                         ((&&)
                           ((&&)
@@ -2575,27 +2574,24 @@ let c04_valid mm d =
                               ((&&)
                                 ((&&)
                                   ((&&)
-                                    ((&&)
-                                      ((&&) (name_ok v.v_name)
-                                        (Z.leb (zlen v.v_dimids) nC_MAX_INT))
-                                      (Z.leb (zlen v.v_atts)
-                                        (Z.sub nC_MAX_INT (Zpos (XI (XI (XI
-                                          (XI (XI XH)))))))))
-                                    (forallb att_ok v.v_atts))
-                                  (forallb (fun i ->
-                                    (&&) (Z.leb Z0 i) (Z.ltb i (zlen dims)))
-                                    v.v_dimids))
-                                (negb (unlimpos_bad (var_shape dims v))))
-                              (valid_type fmt v.v_type))
-                            (check_vlen (xlen_type v.v_type)
-                              (var_shape dims v)
-                              (Z.sub i64_MAX (Zpos (XI XH)))))
-                          (Z.leb Z0 v.v_begin)) (Z.leb v.v_begin i64_MAX))
-                      (Z.leb v.v_begin (Z.sub i64_MAX (var_len dims v))))
-                    vars)) (Z.leb (zsum (map (var_len dims) recs)) i64_MAX))
-              (Z.eqb (check_vlens h) nC_NOERR)) (Z.eqb d.dc_len (hdr_len h)))
-          (Z.ltb Z0 d.dc_len)) (Z.leb d.dc_len i64_MAX))
-      (Z.leb (hdr_req h) mm))
+                                    ((&&) (name_ok v.v_name)
+                                      (Z.leb (zlen v.v_dimids) nC_MAX_INT))
+                                    (Z.leb (zlen v.v_atts)
+                                      (Z.sub nC_MAX_INT (Zpos (XI (XI (XI (XI
+                                        (XI XH)))))))))
+                                  (forallb att_ok v.v_atts))
+                                (forallb (fun i ->
+                                  (&&) (Z.leb Z0 i) (Z.ltb i (zlen dims)))
+                                  v.v_dimids))
+                              (negb (unlimpos_bad (var_shape dims v))))
+                            (valid_type fmt v.v_type))
+                          (check_vlen (xlen_type v.v_type) (var_shape dims v)
+                            (Z.sub i64_MAX (Zpos (XI XH)))))
+                        (Z.leb Z0 v.v_begin)) (Z.leb v.v_begin i64_MAX))
+                    (Z.leb v.v_begin (Z.sub i64_MAX (var_len dims v)))) vars))
+              (Z.leb (zsum (map (var_len dims) recs)) i64_MAX))
+            (Z.eqb (check_vlens h) nC_NOERR)) (Z.ltb Z0 d.dc_len))
+        (Z.leb d.dc_len i64_MAX)) (Z.leb (hdr_req h) mm))
     (match vars with
      | [] -> true
      | _ :: _ ->
